@@ -352,6 +352,8 @@ def evaluate_splice(ctx, scn):
                 if ref.fail is None or not (k < ref.fail[0] <= k + n):
                     where = "the spliced script %s" % ("fails at step %d" % ref.fail[0] if ref.fail else "runs through")
                     ev.add(PROP, "error-differs", "spurious-failure", "exec reported %r but %s (exec at k=%d, %d tokens)" % (c.reply[1][:60], where, k, n))
+                elif ref.fail[1] == FINDANDDELETE:
+                    ev.counters["inconclusive_findanddelete"] += 1      # the reference script contains the exec'd signature, the real one cannot
                 elif ref.fail[1] != c.reply[1] and not (ref.fail[1].startswith("exception") and "thrown" in ref.fail[1]):
                     ev.add(PROP, "error-differs", "text", "exec reported %r, the same operation inside the script reports %r" % (c.reply[1][:60], ref.fail[1][:60]))
                 if ref.fail and ref.fail[0] == k + 1:
@@ -387,6 +389,10 @@ def evaluate_splice(ctx, scn):
                             ev.add(PROP, "continues-after-failure", "reply", "`exec` of the tokens up to the failing one answers %r, the full list %r" % (ct[-1].reply, c.reply))
                 continue
             # accepted
+            if ref.fail is not None and k < ref.fail[0] <= k + n and ref.fail[1] == FINDANDDELETE:
+                ev.counters["inconclusive_findanddelete"] += 1
+                tainted = True
+                continue
             if ref.fail is not None and k < ref.fail[0] <= k + n:
                 ev.add(PROP, "error-differs", "missed-failure", "exec reported success but spliced operation %d fails in the script with %r" % (ref.fail[0] - k, ref.fail[1][:60]))
                 tainted = True
